@@ -1,4 +1,4 @@
 CONSTANTS P = 43  A = 0  B = 7  Gx = 2  Gy = 12  N = 31  WithText = TRUE
-CONSTANTS DSet <- DFew  ESet <- EFew  KSet <- KAll  HSet <- HFew  RSet <- RFew  SSet <- SFew  ERSet <- ETwo
+CONSTANTS DSet <- DFew  ESet <- ETwo  KSet <- KAll  HSet <- HFew  RSet <- RFew  SSet <- SFew  ERSet <- EOne
 SPECIFICATION Spec
 CHECK_DEADLOCK FALSE
